@@ -258,6 +258,8 @@ def run_hs(pyiga_mods, c):
         dd = np.array(hs.dirichlet_dofs(), dtype=int)
         xs = rs.randint(-8, 9, size=n) / 4.0
         xs[dd] = 0.0
+        if len(nd) and not np.any(xs[nd]):
+            xs[nd[0]] = 1.0        # a zero right-hand side on the free dofs makes the relative stopping rule 0/0
         f = A @ xs
         f[dd] = rs.randint(-8, 9, size=len(dd)) / 4.0
         res['mg'] = {'A': [hx(r) for r in A.toarray()], 'f': hx(f), 'xs': hx(xs),
@@ -288,7 +290,7 @@ def run_hs(pyiga_mods, c):
             res['mg']['runs'].append(run)
         # the drivers
         res['mg']['drivers'] = []
-        for (st, sm, tol, maxiter) in mg.get('drivers', []):
+        for (st, sm, tol, maxiter) in (mg.get('drivers', []) if len(nd) else []):    # no free dof: nothing to solve
             d = {'strategy': st, 'smoother': sm, 'tol': tol, 'maxiter': maxiter}
             try:
                 with contextlib.redirect_stdout(io.StringIO()) as out:
